@@ -1,12 +1,327 @@
-//! C12 — monitor not built yet (stub so that the registry is complete).
+//! C12 — lifted and normalized IR is size-consistent.
+//!
+//! Random well-sized P-Code programs (generator of C11 at program level) are parsed and lifted on the
+//! code path of the CLI (`serde_json` -> `parse_pcode_project_to_ir_project` -> `normalize_basic` ->
+//! `normalize_optimize`); after lifting, after the basic normalisation, after every single
+//! optimisation pass, along the pass pipeline and after the whole `normalize_optimize` the
+//! independent size walk `typing::check_project` must find nothing. Second workload: the IR-level
+//! programs of C10 through every pass.
+
+use crate::c10;
+use crate::c11::{gen_program, show_blk, PProject};
 use crate::core::*;
+use crate::irb::{project_from_json, project_to_json, show_program};
+use crate::typing;
+use cwe_checker_lib::intermediate_representation as ir;
+use cwe_checker_lib::pcode;
+use serde_json::{json, Value};
+use std::collections::BTreeMap;
 
 pub fn info() -> CheckInfo {
     CheckInfo {
         id: "C12",
-        rule: "(monitor not built yet)",
-        assumptions: &[],
-        run: |_cfg| Report::new(),
-        replay: |_cfg, _case| Report::new(),
+        rule: "workload 'pcode': random well-sized P-Code programs (1-3 functions, 2-10 blocks, nested/same-name/16-byte sub-registers, temporaries reused with several sizes, RAM operands, float and integer mnemonics, stack prologues incl. alignment masks, all jump mnemonics, shared and missing jump targets, extern symbols with register/stack arguments) serialized to the extractor's JSON, parsed and lifted by parse_pcode_project_to_ir_project, then normalize_basic and every optimisation pass (alone, in pipeline order, and normalize_optimize as a whole); workload 'ir': the basic-normalized IR programs of C10 through every pass. After each stage the size walk of typing.rs runs over every Def, Jmp condition/target expression, extern-symbol argument and calling-convention expression; an inconsistency that is not present in the stage's input is a violation. non-trivial = the walk covered at least one sub-register-derived PIECE/SUBPIECE expression (pcode) or the stage changed the program (ir); distinct = hash of the program",
+        assumptions: &[
+            "typing.rs is a correct transcription of the P-Code size rules; reported only: unequal operand sizes of same-size operations (integer, float, boolean, comparisons), SUBPIECE low+size beyond its operand or size 0, extension to a smaller size, assignment value size != variable size, load/store address size != pointer size (= size of the stack pointer register)",
+            "typing.rs also demands 1-byte operands of BOOL_* / a 1-byte branch condition / non-zero variable, cast and constant sizes; the statement does not, so these messages are filtered out (counted under 'beyond-statement:*')",
+            "indirect jump/call/return targets need not be pointer-sized (not in the statement); their sub-expressions are still walked",
+            "generated P-Code is well-sized (C11's generator; LOAD/STORE addresses are 8 bytes); the IR programs of C10 are asserted well-sized before use, otherwise the case is inconclusive",
+        ],
+        run,
+        replay,
     }
+}
+
+/// Classification of a message of typing.rs: Some(kind) = demanded by the statement, None = beyond the statement.
+pub fn classify(msg: &str) -> Result<&'static str, &'static str> {
+    if msg.contains("boolean operation") {
+        Err("beyond-statement:bool-operand-not-1-byte")
+    } else if msg.contains("BoolNegate on operand") {
+        Err("beyond-statement:boolnegate-operand-not-1-byte")
+    } else if msg.contains("branch condition of size") {
+        Err("beyond-statement:condition-not-1-byte")
+    } else if msg.contains("has size 0") || msg.contains("cast to size 0") || msg.contains("variable of size 0") {
+        Err("beyond-statement:size-0")
+    } else if msg.contains("constant with bit width") {
+        Err("beyond-statement:constant-bit-width")
+    } else if msg.contains("indirect target of size") {
+        Err("beyond-statement:indirect-target-size")
+    } else if msg.contains("operands of") {
+        Ok("operand-sizes-differ")
+    } else if msg.contains("subpiece [") {
+        Ok("subpiece-out-of-range")
+    } else if msg.contains(" to size ") {
+        Ok("extension-to-smaller-size")
+    } else if msg.contains("assignment of a value") {
+        Ok("assignment-size")
+    } else if msg.contains("load address of size") {
+        Ok("load-address-size")
+    } else if msg.contains("store address of size") {
+        Ok("store-address-size")
+    } else {
+        Ok("other")
+    }
+}
+
+/// All messages of the walk over a project: defs/jumps plus extern symbol arguments and calling conventions.
+pub fn walk(project: &ir::Project) -> Vec<String> {
+    let mut errs = typing::check_project(project, false);
+    let ps = u64::from(project.stack_pointer_register.size);
+    for sym in project.program.term.extern_symbols.values() {
+        for arg in sym.parameters.iter().chain(sym.return_values.iter()) {
+            let n0 = errs.len();
+            match arg {
+                ir::Arg::Register { expr, .. } => {
+                    typing::expr_size(expr, &mut errs);
+                }
+                ir::Arg::Stack { address, .. } => {
+                    if let Some(s) = typing::expr_size(address, &mut errs) {
+                        if s != ps {
+                            errs.push(format!("load address of size {s} (pointer size {ps})"));
+                        }
+                    }
+                }
+            }
+            for e in errs[n0..].iter_mut() {
+                *e = format!("extern symbol {} argument: {e}", sym.name);
+            }
+        }
+    }
+    for cc in project.calling_conventions.values() {
+        for e in cc.float_parameter_register.iter().chain(cc.float_return_register.iter()) {
+            let n0 = errs.len();
+            typing::expr_size(e, &mut errs);
+            for m in errs[n0..].iter_mut() {
+                *m = format!("calling convention {}: {m}", cc.name);
+            }
+        }
+    }
+    errs
+}
+
+/// Messages demanded by the statement; the others are only counted.
+fn relevant(project: &ir::Project, rep: &mut Report) -> Vec<(String, &'static str)> {
+    let mut out = Vec::new();
+    for m in walk(project) {
+        match classify(&m) {
+            Ok(kind) => out.push((m, kind)),
+            Err(beyond) => rep.obs(beyond),
+        }
+    }
+    out
+}
+
+fn count_pieces(project: &ir::Project) -> usize {
+    fn walk_e(e: &ir::Expression, n: &mut usize) {
+        match e {
+            ir::Expression::BinOp { op, lhs, rhs } => {
+                if *op == ir::BinOpType::Piece {
+                    *n += 1;
+                }
+                walk_e(lhs, n);
+                walk_e(rhs, n);
+            }
+            ir::Expression::Subpiece { arg, .. } => {
+                *n += 1;
+                walk_e(arg, n);
+            }
+            ir::Expression::UnOp { arg, .. } | ir::Expression::Cast { arg, .. } => walk_e(arg, n),
+            _ => (),
+        }
+    }
+    let mut n = 0;
+    for sub in project.program.term.subs.values() {
+        for blk in &sub.term.blocks {
+            for d in &blk.term.defs {
+                match &d.term {
+                    ir::Def::Assign { value: e, .. } | ir::Def::Load { address: e, .. } => walk_e(e, &mut n),
+                    ir::Def::Store { address, value } => {
+                        walk_e(address, &mut n);
+                        walk_e(value, &mut n);
+                    }
+                }
+            }
+        }
+    }
+    n
+}
+
+/// Run one stage, walk its output and report every relevant message that its input did not have.
+/// Returns the output (None if the stage panicked).
+#[allow(clippy::too_many_arguments)]
+fn stage(
+    label: &str,
+    input: &ir::Project,
+    input_msgs: &[(String, &'static str)],
+    f: &dyn Fn(&mut ir::Project),
+    rep: &mut Report,
+    case: &dyn Fn() -> Value,
+    size: u64,
+    source: &dyn Fn() -> String,
+) -> Option<(ir::Project, Vec<(String, &'static str)>)> {
+    let mut p = input.clone();
+    rep.eval();
+    if let Err(msg) = guard(|| f(&mut p)) {
+        rep.violation(format!("{label}:panic:{}", panic_site(&msg)), None, format!("{label} panicked on a lifted well-sized program: {msg}\n{}", source()), case(), size);
+        return None;
+    }
+    let msgs = relevant(&p, rep);
+    let mut seen: BTreeMap<&str, usize> = BTreeMap::new();
+    for (m, _) in input_msgs {
+        *seen.entry(m.as_str()).or_insert(0) += 1;
+    }
+    for (m, kind) in &msgs {
+        match seen.get_mut(m.as_str()) {
+            Some(n) if *n > 0 => *n -= 1,
+            _ => {
+                rep.violation(
+                    format!("{kind}:{label}"),
+                    None,
+                    format!("after {label}: {m}\n--- program after {label}:\n{}--- program before:\n{}{}", show_program(&p.program.term), show_program(&input.program.term), source()),
+                    case(),
+                    size,
+                );
+            }
+        }
+    }
+    Some((p, msgs))
+}
+
+fn run_passes(base: &ir::Project, base_msgs: &[(String, &'static str)], rep: &mut Report, case: &dyn Fn() -> Value, size: u64, source: &dyn Fn() -> String) -> bool {
+    let mut changed = false;
+    for pass in c10::PASSES {
+        if let Some((p, _)) = stage(pass, base, base_msgs, &|p| c10::apply_pass(p, pass), rep, case, size, source) {
+            if p != *base {
+                changed = true;
+                rep.obs(&format!("{pass}:changed-program"));
+            }
+        }
+    }
+    let mut cur = base.clone();
+    let mut cur_msgs = base_msgs.to_vec();
+    for pass in c10::PASSES {
+        match stage(&format!("pipeline:{pass}"), &cur, &cur_msgs, &|p| c10::apply_pass(p, pass), rep, case, size, source) {
+            Some((p, m)) => {
+                cur = p;
+                cur_msgs = m;
+            }
+            None => break,
+        }
+    }
+    stage("normalize_optimize", base, base_msgs, &|p| c10::apply_pass(p, "normalize_optimize"), rep, case, size, source);
+    changed
+}
+
+pub fn pproject_text(p: &PProject) -> String {
+    let mut out = String::from("--- P-Code program:\n");
+    for s in &p.program.term.subs {
+        out += &format!(" PSUB [{}] {}\n", s.tid.id, s.term.name);
+        for b in &s.term.blocks {
+            out += &show_blk(b);
+        }
+    }
+    out
+}
+
+/// Workload 'pcode': the JSON text goes through the same functions as in the CLI.
+pub fn check_pcode_program(text: &str, rep: &mut Report) {
+    let case = || json!({"workload":"pcode","project": serde_json::from_str::<Value>(text).unwrap_or(Value::Null)});
+    let source = || match serde_json::from_str::<PProject>(text) {
+        Ok(p) => pproject_text(&p),
+        Err(_) => String::new(),
+    };
+    let size = text.len() as u64 / 64;
+    rep.eval();
+    let parsed: pcode::Project = match serde_json::from_str(text) {
+        Ok(p) => p,
+        Err(e) => {
+            rep.inconclusive("harness:extractor-json-rejected");
+            rep.note(format!("the generated JSON was rejected by the parser: {e}"));
+            return;
+        }
+    };
+    let lifted = match guard(|| cwe_checker_lib::utils::ghidra::parse_pcode_project_to_ir_project(parsed, &[], &None)) {
+        Ok(Ok((p, _logs))) => p,
+        Ok(Err(e)) => {
+            rep.violation("lift:error", None, format!("parse_pcode_project_to_ir_project failed: {e}\n{}", source()), case(), size);
+            return;
+        }
+        Err(msg) => {
+            rep.violation(format!("lift:panic:{}", panic_site(&msg)), None, format!("lifting panicked: {msg}\n{}", source()), case(), size);
+            return;
+        }
+    };
+    let lift_msgs = relevant(&lifted, rep);
+    for (m, kind) in &lift_msgs {
+        rep.violation(format!("{kind}:lift"), None, format!("after lifting: {m}\n--- lifted program:\n{}{}", show_program(&lifted.program.term), source()), case(), size);
+    }
+    let pieces = count_pieces(&lifted);
+    let (basic, basic_msgs) = match stage("normalize_basic", &lifted, &lift_msgs, &|p| { let _ = p.normalize_basic(); }, rep, &case, size, &source) {
+        Some(x) => x,
+        None => return,
+    };
+    run_passes(&basic, &basic_msgs, rep, &case, size, &source);
+    if pieces > 0 {
+        rep.nontrivial(crate::prng::hash_str(text));
+    }
+    rep.obs(&format!("pcode:subs:{}", lifted.program.term.subs.len()));
+    let nblocks: usize = lifted.program.term.subs.values().map(|s| s.term.blocks.len()).sum();
+    rep.obs(&format!("pcode:blocks:{nblocks}"));
+}
+
+/// Workload 'ir': a basic-normalized IR program of C10 through every pass.
+pub fn check_ir_program(base: &ir::Project, rep: &mut Report) {
+    let case = || json!({"workload":"ir","project": project_to_json(base)});
+    let size: u64 = base.program.term.subs.values().map(|s| s.term.blocks.iter().map(|b| 2 + b.term.defs.len() as u64).sum::<u64>()).sum();
+    rep.eval();
+    let base_all = walk(base);
+    if !base_all.is_empty() {
+        rep.inconclusive("harness:c10-program-not-well-sized");
+        rep.note(format!("a generated IR program is not well-sized before any pass: {}", base_all[0]));
+        return;
+    }
+    let changed = run_passes(base, &[], rep, &case, size, &String::new);
+    if changed {
+        rep.nontrivial(fp_of(&base.program));
+    }
+}
+
+fn run(cfg: &Cfg) -> Report {
+    let shards = cfg.tier.pick(128usize, 1024usize);
+    let per_shard = cfg.tier.pick(1500usize, 1500usize);
+    par_shards(cfg, "c12", shards, |idx, rng, rep| {
+        for i in 0..per_shard {
+            if idx % 4 == 3 {
+                match guard(|| c10::gen_project(rng, false, false)) {
+                    Ok(p) => {
+                        check_ir_program(&p, rep);
+                        rep.obs("workload:ir");
+                    }
+                    Err(msg) => rep.inconclusive(&format!("generator-or-normalize_basic-panic:{}", panic_site(&msg))),
+                }
+            } else {
+                let floats = idx % 2 == 0;
+                let prog = gen_program(rng, floats);
+                let text = serde_json::to_string(&prog).unwrap();
+                check_pcode_program(&text, rep);
+                rep.obs("workload:pcode");
+                if idx == 0 && i < 2 {
+                    rep.sample(json!({"pcode_program": pproject_text(&prog)}));
+                }
+            }
+        }
+    })
+}
+
+fn replay(_cfg: &Cfg, case: &Value) -> Report {
+    let mut rep = Report::new();
+    if case["workload"] == json!("ir") {
+        match project_from_json(&case["project"]) {
+            Ok(p) => check_ir_program(&p, &mut rep),
+            Err(e) => rep.note(format!("cannot parse replay case: {e}")),
+        }
+    } else {
+        check_pcode_program(&case["project"].to_string(), &mut rep);
+    }
+    rep
 }
